@@ -160,11 +160,13 @@ def build_validation_error(errors: Iterable[Error]) -> ValidationError:
             messages.append(error)
             continue
         path, msg = error
+        if path is None:
+            path = ()
+        elif isinstance(path, str) or not isinstance(path, Collection):
+            path = (path,)  # a single key, possibly falsy (index 0, empty string)
         if not path:
             messages.append(msg)
         else:
-            if isinstance(path, str) or not isinstance(path, Collection):
-                path = (path,)
             key, *remain = path
             children[key] = merge_errors(
                 children.get(key), _rec_build_error(remain, msg)
